@@ -72,6 +72,24 @@ Example settled_hypotheses_met :
   slots nv_done_state = [Some (VRes VNil (Some (EUser 7))); Some (VRes VNil None); Some (VRes VNil None); Some (VRes VNil None)].
 Proof. split; [right|]; vm_compute; reflexivity. Qed.
 
+(* C09_two_workers_prefix: stop mode, two workers, all four items submitted; worker 0 receives item
+   0 and stalls before its stop-flag check; worker 1 runs item 1 (success) and item 2 (failure:
+   the flag goes up); then worker 0 checks and skips item 0, and item 3 is skipped too.  Item 2 was
+   executed after the skipped item 0, and the only other item before it, item 1, succeeded. *)
+From Flyt Require Import ItemMon.
+Definition nv2_script : script :=
+  [ {| se_key := (0, PhExec, 3); se_rs := [(RErr (EUser 7), false)]; se_dflt := (RErr (EUser 7), false) |} ].
+Definition nv2_state : bst :=
+  brun (oracle_of nv2_script) nv_cfg 0 nv_items true 4 (binit nv_items 2 nv_s0)
+       ([TMain; TMain; TMain; TMain; TMain; TMain; TMain; TMain; TMain; TWorker 0]
+        ++ repeat (TWorker 1) 16 ++ repeat (TWorker 0) 40 ++ repeat (TWorker 1) 40 ++ [TMain; TMain]).
+Example two_workers_hypotheses_met :
+  cancelled (base nv2_state) = false /\ il nv2_state 0 = [] /\ il nv2_state 2 <> [] /\
+  slot_at nv2_state 0 = Some stopped_slot /\ slot_at nv2_state 3 = Some stopped_slot /\
+  ist_result nv_cfg (irun nv_cfg 0 (item_at nv_items 1) (il nv2_state 1)) = Some (inl VNil) /\
+  ist_result nv_cfg (irun nv_cfg 0 (item_at nv_items 2) (il nv2_state 2)) = Some (inr (EUser 7)).
+Proof. repeat split; try (vm_compute; reflexivity). vm_compute. discriminate. Qed.
+
 (* ------------------------------------------------------------ pool *)
 (* C12_barrier: a submitter whose next operation is Wait, with the counter at zero after its two
    tasks ran: the Wait step is enabled *)
